@@ -147,6 +147,10 @@ var failPool = []failing{
 	{"error-deep-in-recursion", `func zfdeep(n) { if n == 0 { error("zf bottom") }; 1 + zfdeep(n - 1) }; zfdeep(25)`, false, false},
 	{"type-error-deep-in-recursion", `zfd2 = n => { if n == 0 { return 1 + "zf" }; [zfd2(n - 1)] }; zfd2(20)`, false, false},
 	{"depth-overflow", `func(){ zfr = n => zfr(n + 1); zfr(0) }()`, false, true},
+	// the depth limit reached inside one of the library functions that are themselves written in grol
+	{"depth-overflow-inside-abs", `func zfa(n) { abs(0 - n); zfa(n + 1) }; zfa(0)`, false, true},
+	{"depth-overflow-inside-keys", `zfm = {}; for zfi = 300 { zfm[zfi] = zfi }; keys(zfm)`, false, true},
+	{"depth-overflow-inside-str", `func zfs(n) { [str(n), zfs(n + 1)] }; zfs(0)`, false, true},
 	{"depth-overflow-right-of-pipe", `"zf piped text" | (func(){ self() })()`, false, true},
 	{"error-right-of-pipe", `"zf piped text" | (x => error("zf pipe", x))(1)`, false, false},
 	{"depth-overflow-named", `func zfrec(n) { 1 + zfrec(n + 1) }; zfrec(0)`, false, true},
